@@ -11,6 +11,7 @@ DNext ==
      \/ "AddRef" \in Acts /\ \E a \in nodes \cup {9}, t \in Types, b \in nodes \cup {9}, f \in BOOLEAN : AddRef(a, t, b, f)
      \/ "DelRef" \in Acts /\ \E a \in nodes, t \in Types, b \in nodes, f \in BOOLEAN, bi \in BOOLEAN :
           (bi => f) /\ DelRef(a, t, b, f, bi)
-     \/ "DelNode" \in Acts /\ \E n \in Ids \cup {9}, tr \in TRs : DelNode(n, tr)
+     \/ "DelNode" \in Acts
+        /\ \E n \in {i \in Ids : i \in nodes \/ (\E r \in refs : r[1] = i \/ r[3] = i)} \cup {9}, tr \in TRs : DelNode(n, tr)
 Done == depth = MaxDepth
 =============================================================================
